@@ -76,7 +76,8 @@ Verdict ==
   PrintT(ToJson([h |-> Hs[h].id, l |-> l',
                  fails   |-> Fails(st, e.msg, e.faults, e.obs) \cup HistFails(st', hist')
                              \cup (IF l' = 1 THEN InitFails(Hs[h]) ELSE {})
-                             \cup AlongHistory(xst, e.msg, e.faults, e.obs),
+                             \cup AlongHistory(xst, e.msg, e.faults, e.obs)
+                             \cup (IF RetryUnaffected(st, hist, e.msg, e.faults, e.obs) THEN {} ELSE {"C14", "C02"}),
                  applies |-> Applied(st, e.msg, e.faults, e.obs),
                  div     |-> Diverges(st, e.msg, e.faults, e.obs)]))
 =============================================================================
